@@ -63,6 +63,16 @@ def build_calendar(spec, anchor=MON):
         lo = a - 20 * DAY
         hi = a + 20 * DAY + timedelta(hours=23, minutes=59, seconds=59, microseconds=999999)
         return WeeklyCalendar(start=lo, end=hi, days=[0, 1, 2, 3, 4], units_per_day=8) | FixedCalendar(4)
+    if spec == 'bounded_half':
+        # a part-time contract: calendars with validity bounds scaled by a plain number. The contract pauses for four days around
+        # the anchor: both schedulers meet days on which the base calendars have no information
+        hi = timedelta(hours=23, minutes=59, seconds=59, microseconds=999999)
+        return (WeeklyCalendar(start=a + 2 * DAY, end=a + 40 * DAY + hi, days=[0, 1, 2, 3, 4], units_per_day=8)
+                | WeeklyCalendar(start=a - 40 * DAY, end=a - 3 * DAY + hi, days=[0, 1, 2, 3, 4], units_per_day=8)) * 0.5
+    if spec == 'bounded_div':
+        lo = a - 20 * DAY
+        hi = a + 20 * DAY + timedelta(hours=23, minutes=59, seconds=59, microseconds=999999)
+        return WeeklyCalendar(start=lo, end=hi, days=[0, 1, 2, 3, 4], units_per_day=8) / 2
     if spec in ('from_noon', 'until_noon', 'fixed_from_noon', 'fixed_until_noon'):
         # validity bound at noon of the anchor day (forward) / of the day before the deadline (backward)
         noon = a + timedelta(hours=12)
@@ -94,7 +104,7 @@ def build_calendar(spec, anchor=MON):
     raise runtime.HarnessError('unknown calendar spec %r' % (spec,))
 
 
-CAL_MENU = ['none', 'wk58', 'sparse', 'direct', 'holidays', 'half', 'or2', 'bounded', 'wk7']
+CAL_MENU = ['none', 'wk58', 'sparse', 'direct', 'holidays', 'half', 'or2', 'bounded', 'wk7', 'bounded_half']
 NEVER_MENU = ['empty_direct', 'fixed0', 'weekly_noday', 'ended', 'notyet', 'tiny_direct']
 
 
@@ -303,6 +313,14 @@ def make_scheduler(sc, resources):
     """The scheduler object is constructed under a clock that is nine days EARLIER than the clock calc runs under:
     "the current day" of the properties is the day of the calc call, not the day the object was built."""
     from pjplan import ForwardScheduler, BackwardScheduler
+    if sc.layer == 'LX' and resources:
+        # the resources argument in its other forms: the constructor accepts any iterable today (it builds its table in one pass),
+        # and a scheduler that silently forgets the supplied calendars for some of them plans against the wrong capacity
+        form = len(sc.tasks) % 3
+        if form == 2:
+            resources = (r for r in list(resources))
+        elif form == 0:
+            resources = tuple(resources)
     if sc.layer == 'L1i':
         # no date given: the project starts / ends "now", i.e. at the clock value the constructor sees - the scenario's anchor
         seams.CLOCK.set_const(sc.anchor)
@@ -397,6 +415,16 @@ class TaskObs:
                  'resource', 'min_start', 'obj')
 
 
+class _NamedDefault:
+    """Stand-in for 'the default resource of this name' where the result lists none (see SchedObs.res_by_name)."""
+
+    def __init__(self, name):
+        self.name = name
+
+    def get_available_units(self, date, task=None):
+        return 8 if date.weekday() < 5 else 0
+
+
 class SchedObs:
     """Everything the oracles read, taken once through public getters."""
 
@@ -433,6 +461,20 @@ class SchedObs:
         self.rows = [(r.resource, seams.plain(r.date), r.task.id, r.units, r.task) for r in s.resource_usage.rows()]
         self.report = s.resource_usage
         self._cap = {}
+        self._byname = {}
+        self.supplied = getattr(ex, 'resources_in', None)
+        # rows booked on resource objects that the result does not list (C03 reports that): for the other properties "the task's
+        # resource" then is the resource of that NAME - the rows of all such objects of one name count as one resource's rows
+        listed = {id(r) for r in self.resources}
+        self.unlisted = {}
+        if any(id(r[0]) not in listed for r in self.rows):
+            rows = []
+            for r in self.rows:
+                if id(r[0]) not in listed:
+                    canon = self.unlisted.setdefault(getattr(r[0], 'name', None), r[0])
+                    r = (canon,) + tuple(r[1:])
+                rows.append(r)
+            self.rows = rows
 
     # derived notions (DESIGN 5.3)
     def leaves(self, tid):
@@ -453,7 +495,14 @@ class SchedObs:
         return out
 
     def res_by_name(self, name):
-        return [r for r in self.resources if r.name == name]
+        found = [r for r in self.resources if r.name == name]
+        if not found and name in self.unlisted:
+            return [self.unlisted[name]]
+        if not found and not any(getattr(r, 'name', None) == name for r in (self.supplied or [])):
+            # no resource of that name anywhere (C03 reports that): a task's resource that nobody supplied is a Monday-Friday 8-unit
+            # resource of its own, and what is booked on it is what the tasks NAMING it have booked, whatever object the rows sit on
+            return [self._byname.setdefault(name, _NamedDefault(name))]
+        return found
 
     def cap(self, res, day):
         k = (id(res), day)
@@ -474,6 +523,9 @@ class SchedObs:
         return [r for r in self.rows if r[2] == tid]
 
     def booked(self, res, day, only_task=None):
+        if type(res) is _NamedDefault:
+            return sum(r[3] for r in self.rows if r[1] == day and r[2] in self.by_id and self.by_id[r[2]].resource == res.name
+                       and (only_task is None or r[2] == only_task))
         return sum(r[3] for r in self.rows if r[0] is res and r[1] == day and (only_task is None or r[2] == only_task))
 
     def booked_before(self, idx):
